@@ -35,23 +35,25 @@ func blockFacts(b *ssa.BasicBlock) []Fact {
 
 func blockFactsS(b *ssa.BasicBlock, seen map[Fact]bool) []Fact {
 	var out []Fact
-	for s := b; s != nil; s = s.Idom() {
-		if len(s.Preds) != 1 {
+	// Edge dominance, general form: for every dominator D of b that ends in an If,
+	// if b cannot be reached from D's false successor without passing D again, the
+	// last evaluation of D's condition before reaching b was true (and vice versa).
+	for d := b.Idom(); d != nil; d = d.Idom() {
+		if len(d.Instrs) == 0 {
 			continue
 		}
-		p := s.Preds[0]
-		if len(p.Instrs) == 0 {
+		ifi, ok := d.Instrs[len(d.Instrs)-1].(*ssa.If)
+		if !ok || d.Succs[0] == d.Succs[1] {
 			continue
 		}
-		ifi, ok := p.Instrs[len(p.Instrs)-1].(*ssa.If)
-		if !ok {
-			continue
+		fromT := d.Succs[0] == b || blockReachesAvoiding(d.Succs[0], b, d)
+		fromF := d.Succs[1] == b || blockReachesAvoiding(d.Succs[1], b, d)
+		switch {
+		case fromT && !fromF:
+			out = append(out, expandFactN(normFact(ifi.Cond, true), seen)...)
+		case fromF && !fromT:
+			out = append(out, expandFactN(normFact(ifi.Cond, false), seen)...)
 		}
-		if p.Succs[0] == s && p.Succs[1] == s {
-			continue
-		}
-		pol := p.Succs[0] == s
-		out = append(out, expandFactN(normFact(ifi.Cond, pol), seen)...)
 	}
 	return out
 }
